@@ -18,7 +18,7 @@
     [last_sb tr t]: index of the last fetch_add that opened a scan of thread [t];
     [cnt name p tr]: number of client events [name p]. *)
 From Coq Require Import ZArith List String.
-From LV Require Import Base.Conc Base.Events Model.Hp Proofs.HpTrace Proofs.HpInv Proofs.HpProofs.
+From LV Require Import Base.Conc Base.Events Model.Hp Proofs.HpTrace Proofs.HpInv Proofs.HpProofs Proofs.HpDestroy.
 Import ListNotations.
 Local Open Scope Z_scope.
 Local Open Scope string_scope.
@@ -55,3 +55,97 @@ Example C01_guarded_object_survives_then_is_disposed :
   last_sb (firstn 61 (fst C01_example)) 1 = Some 52%nat /\
   cnt "dispose" 4 (fst C01_example) = 1 /\ cnt "retire" 4 (fst C01_example) = 1.
 Proof. vm_compute. repeat split; reflexivity. Qed.
+
+(** Second sentence ("as a result, a guarded pointer refers to a live object until the guard is released").
+
+    What is proved, for every program and schedule, with no assumption on the client:
+    (1) whatever a scan gives to the disposer had been passed to retire() before that scan began; *)
+Theorem C01_dispose_after_retire :
+  forall (c : cfgT) (ths : list (list op)) cf,
+    Conc.reach (Hp.init_cfg c ths) cf ->
+    forall d t p, nth_error (Conc.trace cf) d = Some (t, ev_dispose p) ->
+      exists s, last_sb (firstn d (Conc.trace cf)) t = Some s /\ retired_before (Conc.trace cf) s p.
+Proof. exact hp_dispose_after_retire. Qed.
+Print Assumptions C01_dispose_after_retire.
+
+(** (2) hence the only way an object can be disposed while a hazard slot holds it (continuously from step [g0] to
+    the disposer call at step [d]) is that retire() had been called on it BEFORE the slot was set at [g0].
+    This is [hp_guarded_ptr_live_partial]: the SMR half of the second sentence. *)
+Theorem C01_guard_set_after_retire :
+  forall (c : cfgT) (ths : list (list op)) cf,
+    Conc.reach (Hp.init_cfg c ths) cf ->
+    forall d t p g0 r j,
+      nth_error (Conc.trace cf) d = Some (t, ev_dispose p) -> p <> 0 ->
+      (cInplace c = true -> retire_once (firstn d (Conc.trace cf))) ->
+      held (firstn (S d) (Conc.trace cf)) g0 r j p ->
+      retired_before (Conc.trace cf) g0 p.
+Proof. exact hp_guard_set_after_retire. Qed.
+Print Assumptions C01_guard_set_after_retire.
+
+(** The full statement, NOT proved (kept visible).  Client discipline, as a predicate on the trace:
+    every object is published at most once and retired at most once, an object that was ever published is retired
+    only by the thread that unlinked it, right after the unlinking exchange; guards are taken by protect() on a
+    source (or by copying a live guard into a HIGHER slot, not expressed below); under it, between the event
+    "protected j p" of thread t and the next event of t that releases slot j, no "dispose p" occurs.
+    Missing for a proof: the client-side half (protect's re-load saw p in the source, so p had not been unlinked,
+    hence not retired, when the slot was set) -- it needs the history of the client sources and the
+    retire-after-unlink order in the invariant; with it the statement follows from [C01_guard_set_after_retire]. *)
+Definition releases (j : nat) (e : ev) : Prop :=
+  match e with
+  | EvCli n (x :: _) => (n = "protect" \/ n = "assign" \/ n = "clear" \/ n = "copy") /\ x = zn j
+  | EvCli n [] => n = "detach"
+  | _ => False
+  end.
+Definition client_discipline (tr : trace) : Prop :=
+  retire_once tr /\
+  (forall p, p <> 0 -> forall i i' u u' k k', nth_error tr i = Some (u, EvCli "publish" [k; p]) ->
+     nth_error tr i' = Some (u', EvCli "publish" [k'; p]) -> i = i') /\
+  (forall i u p, nth_error tr i = Some (u, EvCli "retire" [p]) ->
+     (exists i0, i = S i0 /\ nth_error tr i0 = Some (u, EvCli "unlinked" [p])) \/
+     (forall i' u' k, nth_error tr i' <> Some (u', EvCli "publish" [k; p]))) /\
+  (forall i u j o, nth_error tr i = Some (u, EvCli "assign" [j; o]) -> o = 0).
+Definition C01_guarded_ptr_live_statement : Prop :=
+  forall (c : cfgT) (ths : list (list op)) cf,
+    Conc.reach (Hp.init_cfg c ths) cf -> client_discipline (Conc.trace cf) ->
+    forall v d t u j p, (v < d)%nat -> p <> 0 ->
+      nth_error (Conc.trace cf) v = Some (t, EvCli "protected" [zn j; p]) ->
+      nth_error (Conc.trace cf) d = Some (u, ev_dispose p) ->
+      exists i e, (v < i < d)%nat /\ nth_error (Conc.trace cf) i = Some (t, e) /\ releases j e.
+
+(** A copy of a guarded pointer into a LOWER slot is not a guard of its own (known finding
+    "hp-guard-copy-downward", reproduced on the real library: corpus/C01/010-copy-down.json).
+    HP(2,2,8,classic).  Thread 0: publish object 4; protect it in slot 1 ("protected" at event 16); copy slot 1
+    into slot 0 ("copied" at event 46); clear slot 1; ...; touch through slot 0 at event 64.  Thread 1: unlink and
+    retire object 4, scan (begun at event 35): it reads thread 0's slot 0 before the copy and slot 1 after the
+    clear, and disposes object 4 at event 54 -- while slot 0 of record 0 holds it and thread 0 uses it afterwards.
+    (No contradiction with the theorems: slot 0 was set after the scan began, slot 1 did not hold it to the end.) *)
+Definition C01_copy_down_example :=
+  Hp.run_case [2;2;8;0;1;50] [[[1];[6;0;4];[3;1;0];[10;0;1];[5;1];[3;1;0];[9;0]]; [[1];[6;0;0];[8]]]
+    (repeat 0%nat 10 ++ repeat 1%nat 16 ++ repeat 0%nat 4 ++ repeat 1%nat 10) 1000.
+Example C01_copy_down_unsafe :
+  let tr := fst C01_copy_down_example in
+  nth_error tr 16 = Some (0%nat, EvCli "protected" [1; 4]) /\
+  nth_error tr 46 = Some (0%nat, EvCli "copied" []) /\
+  nth_error tr 54 = Some (1%nat, ev_dispose 4) /\
+  last_sb (firstn 54 tr) 1 = Some 35%nat /\
+  slot_at (firstn 55 tr) 0 0 = 4 /\
+  nth_error tr 64 = Some (0%nat, EvCli "touch" [0; 4]).
+Proof. vm_compute. repeat split; reflexivity. Qed.
+
+(** The in-place scan needs [retire_once]: HP(1,2,3,in-place), one thread guards object 4 and (client error)
+    retires it twice; lower_bound marks one of the two equal cells, the other one is disposed while guarded. *)
+Example C01_inplace_double_retire :
+  let tr := fst (Hp.run_case [1;2;3;1;1;50] [[[1];[4;0;4];[7;4];[7;4];[8];[9;0]]] [] 1000) in
+  cnt "retire" 4 tr = 2 /\ (exists d, nth_error tr d = Some (0%nat, ev_dispose 4) /\ slot_at (firstn (S d) tr) 0 0 = 4 /\
+                               slot_at (firstn 8 tr) 0 0 = 4).
+Proof. vm_compute. split; [reflexivity|]. exists 31%nat. repeat split; reflexivity. Qed.
+
+(** Input the code does not reject: retired capacity R = H*P exactly (basic_smr::basic_smr only replaces R < H*P).
+    HP(1,2,2): thread 1 guards object 6, thread 0 guards object 4 and retires 4 and 6: the array is full, the scan
+    frees nothing, and the next retire() writes past the array (undefined behaviour in C++; the model reports it
+    as the client event "overflow").  With R > H*P and at most P thread records a scan of a full array always
+    frees a cell; that bound is documented ("must be greater than") but not enforced. *)
+Example C01_overflow_when_R_equals_HP :
+  let tr := fst (Hp.run_case [1;2;2;0;1;50] [[[1];[4;0;4];[7;4];[7;6];[7;8]];[[1];[4;0;6]]] (repeat 1%nat 8) 1000) in
+  cnt "overflow" 8 tr = 1.
+Proof. vm_compute. reflexivity. Qed.
